@@ -18,6 +18,9 @@ fn pts_around(rng: &mut Rng, n: usize, r: usize, breaks: &[f64], count: usize) -
         if r < n && !breaks.is_empty() && k % 3 != 2 {
             let b = *rng.pick(breaks);
             x[r] = b + *rng.pick(&[0.0, 0.0, 0.25, -0.25, 1.0, -1.0]);
+            if rng.chance(1, 8) {
+                x[r] = nudge(b, rng.chance(1, 2));
+            }
         }
         pts.push(x);
     }
@@ -26,7 +29,16 @@ fn pts_around(rng: &mut Rng, n: usize, r: usize, breaks: &[f64], count: usize) -
 
 fn tie_points(rng: &mut Rng, n: usize, count: usize) -> Vec<Array1<f64>> {
     (0..count)
-        .map(|_| Array1::from_iter((0..n).map(|_| *rng.pick(&[-1.0, 0.0, 0.0, 1.0, 1.0, 2.0, 0.5]))))
+        .map(|_| {
+            let mut x = Array1::from_iter((0..n).map(|_| *rng.pick(&[-1.0, 0.0, 0.0, 1.0, 1.0, 2.0, 0.5])));
+            // near ties: one component one unit in the last place above / below another
+            if n >= 2 && rng.chance(1, 3) {
+                let i = rng.below(n);
+                let j = (i + 1 + rng.below(n - 1)) % n;
+                x[j] = nudge(x[i], rng.chance(1, 2));
+            }
+            x
+        })
         .collect()
 }
 
